@@ -580,6 +580,11 @@ class WantEcho(ProtocolStateBase):
                     self._sent_cmd.src.id == HGI_DEVICE_ID
                     and pkt.dst.id == self._context._protocol.hgi_id
                 )
+                or (  # the gateway's own id is not known (yet): any 18: could be us
+                    self._sent_cmd.src.id == HGI_DEVICE_ID
+                    and self._context._protocol.hgi_id == HGI_DEVICE_ID
+                    and pkt.dst.id[:2] == HGI_DEVICE_ID[:2]
+                )
             )
         ):
             _LOGGER.warning(
